@@ -67,7 +67,12 @@ static void aead_group(int fam)
         SECRET(key, kl); SECRET(m, l);
         switch (fam) {
         case 0: api_aead_enc[alg](c, &cl, m, l, ADB, a, N, key); break;
-        case 1: { api_inc_state st; api_inc_init[alg](&st, N, key); api_inc_start[alg](&st, ADB, a); api_inc_enc[alg](&st, m, c, l / 2); api_inc_enc[alg](&st, m + l / 2, c + l / 2, l - l / 2); api_inc_encfin[alg](&st, c + l); api_inc_free[alg](&st); break; }
+        case 1: { api_inc_state st; api_inc_init[alg](&st, N, key); api_inc_start[alg](&st, ADB, a); api_inc_enc[alg](&st, m, c, l / 2); api_inc_enc[alg](&st, m + l / 2, c + l / 2, l - l / 2); api_inc_encfin[alg](&st, c + l);
+                  /* a second packet on the same object, and a session whose public nonce is all ones (the increment wraps): the carry depends on the nonce only */
+                  api_inc_start[alg](&st, ADB, a); api_inc_enc[alg](&st, m, c, l); api_inc_encfin[alg](&st, c + l); api_inc_free[alg](&st);
+                  { uint8_t ones[16]; memset(ones, 0xff, 16); api_inc_init[alg](&st, ones, key); api_inc_start[alg](&st, ADB, a); api_inc_enc[alg](&st, m, c, l); api_inc_encfin[alg](&st, c + l);
+                    api_inc_start[alg](&st, ADB, a); api_inc_enc[alg](&st, m, c, l); api_inc_encfin[alg](&st, c + l); api_inc_free[alg](&st); }
+                  break; }
         case 2: { api_masked_key mk; api_masked_key_init(alg, &mk, key); api_masked_enc[alg](c, &cl, m, l, ADB, a, N, &mk); api_masked_key_free(alg, &mk); break; }
         case 3: api_siv_enc[alg](c, &cl, m, l, ADB, a, N, key); break;
         case 4: { api_isap_key pk; api_isap_init[alg](&pk, key); api_isap_enc[alg](c, &cl, m, l, ADB, a, N, &pk); api_isap_free[alg](&pk); break; }
